@@ -603,6 +603,7 @@ type node struct {
 	db     state.Database
 	tree   *snapshot.Tree
 	caches []*fastcache.Cache
+	stuck  bool // a product call never returned
 }
 
 // boot starts a new incarnation over the stored bytes; the previous one is
@@ -658,6 +659,9 @@ func (n *node) cleanup() {
 	synctest.Wait()
 	n.sched.parked.Store(false)
 	for _, inc := range n.incs {
+		if n.stuck {
+			break
+		}
 		if inc.tree != nil && !inc.journalled && inc.g.killed.Load() == 0 {
 			inc.tree.Disable()
 		}
@@ -756,6 +760,7 @@ func (r *runner) call(what string, f func()) bool {
 			default:
 			}
 			r.res.Violate(prop, "deadlock", "state code blocks forever during "+what, "the call neither returns nor waits for a running snapshot generator")
+			r.node.stuck = true // the blocked call may hold locks of the tree: nothing can be stopped any more
 			ok = false
 		}
 		break
@@ -1349,6 +1354,9 @@ func (r *runner) genTxOp(h *handle) rop {
 func (engine) Run(t *testing.T, tape *core.Tape, opt core.Options) (res *core.RunResult) {
 	res = core.NewResult()
 	r := &runner{res: res, tape: tape, h: core.NewHasher(), ah: core.NewHasher(), worlds: map[common.Hash]*wrec{}}
+	if os.Getenv("VERIF_STATESIM_PROGRESS") != "" {
+		fmt.Fprintf(os.Stderr, "run %d\n", opt.RunIndex)
+	}
 	var harness interface{}
 	func() {
 		defer func() {
